@@ -209,6 +209,7 @@ pub enum Own {
     RosenN,
     Student { nu: f64 },
     HalfLine, // log p = sum ln x - x  (NaN for x < 0, -inf at 0)
+    BoxU,     // uniform on the open box (0,1)^d: 0 inside, -inf outside; gradient 0
 }
 impl Own {
     pub fn logp(&self, x: &[f64]) -> f64 {
@@ -223,6 +224,7 @@ impl Own {
             Own::RosenN => -(0..x.len() - 1).map(|i| 100.0 * (x[i + 1] - x[i] * x[i]).powi(2) + (1.0 - x[i]).powi(2)).sum::<f64>(),
             Own::Student { nu } => x.iter().map(|v| -(nu + 1.0) / 2.0 * (1.0 + v * v / nu).ln()).sum(),
             Own::HalfLine => x.iter().map(|v| v.ln() - v).sum(),
+            Own::BoxU => if x.iter().all(|v| *v > 0.0 && *v < 1.0) { 0.0 } else { f64::NEG_INFINITY },
         }
     }
     pub fn grad(&self, x: &[f64]) -> Vec<f64> {
@@ -243,6 +245,7 @@ impl Own {
             }
             Own::Student { nu } => x.iter().map(|v| -(nu + 1.0) * v / (nu + v * v)).collect(),
             Own::HalfLine => x.iter().map(|v| 1.0 / v - 1.0).collect(),
+            Own::BoxU => vec![0.0; x.len()],
         }
     }
 }
@@ -253,6 +256,17 @@ pub struct StudentT {
 impl<T: Float, B: AutodiffBackend> BatchedGradientTarget<T, B> for StudentT {
     fn unnorm_logp_batch(&self, p: Tensor<B, 2>) -> Tensor<B, 1> {
         (p.clone() * p).div_scalar(self.nu).add_scalar(1.0).log().mul_scalar(-(self.nu + 1.0) / 2.0).sum_dim(1).squeeze(1)
+    }
+}
+/// The uniform density on the open box (0,1)^d written the obvious way: a constant, masked outside.  The result does
+/// not depend on the positions in the autodiff graph -- there is no gradient entry for them.
+#[derive(Clone)]
+pub struct BoxU;
+impl<T: Float, B: AutodiffBackend> BatchedGradientTarget<T, B> for BoxU {
+    fn unnorm_logp_batch(&self, p: Tensor<B, 2>) -> Tensor<B, 1> {
+        let n = p.dims()[0];
+        let outside = (p.clone().lower_equal_elem(0.0).int() + p.clone().greater_equal_elem(1.0).int()).sum_dim(1).squeeze::<1>(1).greater_elem(0);
+        Tensor::<B, 1>::zeros([n], &p.device()).mask_fill(outside, f32::NEG_INFINITY)
     }
 }
 #[derive(Clone)]
@@ -425,6 +439,12 @@ pub fn record(args: &[String]) {
             if e2 < 1e38 {
                 record_run::<B32, f32, _>(&mut out, "halfline/f32", Own::HalfLine, HalfLine, hi.clone(), e2, l.clamp(1, 9), steps, seed + 400 + c as u64, 3e-4, &mut moved);
             }
+        }
+        // a box with a piecewise constant log-density (no gradient entry in the autodiff graph)
+        let bi: Vec<Vec<f64>> = (0..n).map(|_| vec![rnd(0.1, 0.9), rnd(0.1, 0.9)]).collect();
+        for e2 in [0.05, 0.4] {
+            record_run::<B64, f64, _>(&mut out, "box/f64", Own::BoxU, BoxU, bi.clone(), e2, l.clamp(0, 9), steps, seed + 500 + c as u64, 1e-7, &mut moved);
+            record_run::<B32, f32, _>(&mut out, "box/f32", Own::BoxU, BoxU, bi.clone(), e2, l.clamp(0, 9), steps, seed + 500 + c as u64, 3e-4, &mut moved);
         }
     }
     // the corner of the quantifier in every tier: 32 chains x 16 dimensions, 64 leapfrog steps
